@@ -1,7 +1,6 @@
-(* Proofs/HybridSeq.v — C14: operations that do not overlap (each runs to completion and its write-back lands
-   before the next one starts) behave exactly like one register per key, on every key class and tier
-   configuration, from every coherent state (warm or cold cache): read-your-writes, and list updates all
-   take effect. *)
+(* Proofs/HybridSeq.v — C14: on a two-tier key (persistent / shared+persistent with persistence enabled),
+   Set/Get/Delete/Exists that do not overlap (each runs to completion and its write-back lands before the next
+   one starts) behave exactly like one register, from every coherent state (warm or cold cache). *)
 From TX Require Import Model.Hybrid Proofs.Hybrid.
 From Coq Require Import Lia.
 
@@ -10,40 +9,50 @@ Proof. induction l as [|x l IH]; cbn; auto. Qed.
 Lemma skipn_len {A} (l : list A) : skipn (length l) l = [].
 Proof. induction l as [|x l IH]; cbn; auto. Qed.
 
+Definition is_kv_op (o : op) : bool := match o with OSet _ _ | OGet _ | ODel _ | OExists _ => true | _ => false end.
+
 Section Seq.
   Variable T : tables.
   Variable c : cfg.
-  Hypothesis Hfi : fix_incr c = true.
-  Hypothesis Hfn : fix_setnx c = true.
   Variable k : kbytes.
-
-  Definition guard (o : op) : Prop := op_key o = k /\ (two_tier T c k = true -> is_cache_only_op o = false).
+  Hypothesis H2 : two_tier T c k = true.
 
   Ltac crunch EL ES EP :=
-    repeat (progress (cbn -[skipn length keq]; rewrite ?keq_refl, ?skipn_app_len, ?skipn_len, ?EL, ?ES, ?EP, ?Hfi, ?Hfn)).
+    repeat (progress (cbn -[skipn length keq]; rewrite ?keq_refl, ?skipn_app_len, ?skipn_len, ?EL, ?ES, ?EP)).
 
   Lemma exec_op_spec w o :
-    guard o -> coherent T c w k ->
+    op_key o = k -> is_kv_op o = true -> coherent T c w k ->
     snd (exec_op T c w o) = Some (snd (spec_op (visible T c w k) o)) /\
     visible T c (fst (exec_op T c w o)) k = fst (spec_op (visible T c w k) o) /\
     coherent T c (fst (exec_op T c w o)) k.
   Proof.
-    intros [Hk Hg] Hcoh. destruct o as [k0 v|k0|k0|k0|k0 x|k0 x|k0|k0 v]; cbn in Hk; subst k0; cbn [is_cache_only_op] in Hg;
-    unfold coherent, visible in *. unfold two_tier, cache_tier_for_key in *.
-    pose proof (cat_shared_prefix T k) as Hsp. unfold exec_op, setnx_start, incr_start, two_tier, cache_tier_for_key, cache_for_key.
-    destruct (category T k) eqn:Hc; try (rewrite (Hsp eq_refl)); destruct (en_pers c) eqn:Hp; destruct (has_shared c) eqn:Hs;
-      unfold sp_cache in *; rewrite ?Hs in *; cbn [is_pers_cat andb] in *;
+    intros Hk Hkv Hcoh. specialize (Hcoh H2). unfold coherent, visible. rewrite H2. revert Hcoh H2.
+    unfold two_tier, cache_tier_for_key, exec_op.
+    destruct (category T k) eqn:Hc; cbn [is_pers_cat andb]; try discriminate;
+      destruct (en_pers c) eqn:Hp; try discriminate; intros Hcoh _;
+      unfold sp_cache in *; try destruct (has_shared c) eqn:Hs;
+      cbn [tget] in *;
       destruct (w_local w k) as [vl|] eqn:EL; destruct (w_shared w k) as [vs|] eqn:ES; destruct (w_pers w k) as [vp|] eqn:EP;
-      cbn [tget] in Hcoh; rewrite ?EL, ?ES, ?EP in Hcoh;
-      try (destruct (Hcoh eq_refl) as [Hx|Hx]; try discriminate; try (injection Hx as Hx; try subst vl; try subst vs));
-      try (specialize (Hg eq_refl); discriminate);
-      unfold run_caller, caller_step, init_caller, land_all, op_start, pop_fault, set_start, get_start, del_start, exists_start,
-        incr_start, setnx_start, two_tier, cache_tier_for_key, cache_for_key, sp_cache;
-      rewrite ?Hc, ?Hp, ?Hs, ?(Hsp eq_refl);
-      crunch EL ES EP;
-      repeat match goal with
-             | |- context [match ?v with VStr _ => _ | VList _ => _ | VInt _ => _ end] => destruct v; crunch EL ES EP
-             end;
-      repeat split; try reflexivity; try (intros _; first [left; reflexivity | right; reflexivity]); auto.
+      (destruct Hcoh as [Hx|Hx]; try discriminate; try (injection Hx as Hx; subst vp));
+      destruct o as [k0 v|k0|k0|k0|k0 x|k0 x|k0|k0 v]; try discriminate; cbn in Hk; subst k0;
+      unfold run_caller, caller_step, init_caller, land_all, op_start, pop_fault, set_start, get_start, del_start, exists_start, sp_cache;
+      rewrite ?Hc, ?Hp, ?Hs; crunch EL ES EP;
+      repeat split; try reflexivity; try (intros _; first [left; reflexivity | right; reflexivity]).
+  Qed.
+
+  Theorem seq_refines_spec : forall os w,
+    Forall (fun o => op_key o = k /\ is_kv_op o = true) os -> coherent T c w k ->
+    snd (exec_seq T c w os) = snd (spec_seq (visible T c w k) os) /\
+    visible T c (fst (exec_seq T c w os)) k = fst (spec_seq (visible T c w k) os) /\
+    coherent T c (fst (exec_seq T c w os)) k.
+  Proof.
+    induction os as [|o r IH]; intros w Hos Hcoh; cbn [exec_seq spec_seq fst snd]; [auto|].
+    inversion Hos as [|? ? [Hk Hkv] Hr]; subst.
+    pose proof (exec_op_spec w o Hk Hkv Hcoh) as (E1 & E2 & E3).
+    destruct (exec_op T c w o) as [w1 x]. cbn [fst snd] in *.
+    specialize (IH w1 Hr E3). destruct (exec_seq T c w1 r) as [w2 xs]. cbn [fst snd] in *.
+    destruct (spec_op (visible T c w k) o) as [st1 y] eqn:Es. cbn [fst snd] in *. rewrite E2 in IH.
+    destruct (spec_seq st1 r) as [st2 ys]. cbn [fst snd] in *. destruct IH as (I1 & I2 & I3).
+    subst. auto.
   Qed.
 End Seq.
